@@ -16,7 +16,7 @@ ID = 'C19'
 LEVEL = 'exploration'
 RULE = (
     'Hypothesis-generated (retries 0-5, wait, backoff_factor, timeout, retry_on subset incl. None and the empty tuple, per-attempt script of '
-    'success/listed/unlisted exception/overrun, optional caller cancellation instant; in one case in three 1-2 further callers of the same '
+    'success/listed/unlisted exception/overrun (an overrunning attempt may need 0.25-0.5 s to unwind when cut off), optional caller cancellation instant; in one case in three 1-2 further callers of the same '
     'decorated function with scripts of their own are in flight at the same time) run on the virtual-time loop; each call is '
     'compared with a reference model of call instants, waits, outcome and end time. Non-trivial = at least two '
     'attempts were made, or an attempt was cut off by the timeout, or a caller cancellation took effect; distinct by '
@@ -69,8 +69,13 @@ def _case(draw):
         elif d >= timeout:
             d = max(0.0, timeout - 0.125)
         imm = draw(st.booleans()) if (d == 0 and kind != 'over') else False  # raise/return with no suspension point at all
-        script.append([kind, d, imm])
+        # an attempt that overruns may need time to unwind when it is cut off (cleanup awaited in `except CancelledError` / `finally`)
+        u = draw(st.sampled_from([0, 0, 0.25, 0.5])) if kind == 'over' else 0
+        script.append([kind, d, imm, u])
     cancel_at = draw(st.one_of(st.none(), st.none(), st.integers(0, 240).map(lambda k: k / 8 + 1 / 1024)))
+    if script[0][0] == 'over' and script[0][3] and draw(st.booleans()):
+        # aim the caller's cancellation at the window in which the first attempt is unwinding from its cut-off
+        cancel_at = timeout + draw(st.sampled_from([1, 2, 3])) * script[0][3] / 4 + 1 / 1024
     c = {'retries': retries, 'wait': wait, 'backoff': backoff, 'timeout': timeout, 'retry_on': retry_on, 'script': script, 'cancel_at': cancel_at}
     # one case in three: further callers of the SAME decorated function are in flight at the same time, each with a script of its
     # own (no semaphore, so the calls are independent: attempt counts, waits and outcomes must not leak from one call to another)
@@ -106,10 +111,15 @@ def model(c, script=None, start=0.0, cancel_at='main'):
         if ca is not None and ca < t:
             return [(calls, ('cancelled',), ca)]
         calls = calls + [t]
-        kind, d, _imm = script[k]
+        kind, d, _imm = script[k][:3]
+        u = script[k][3] if len(script[k]) > 3 and kind == 'over' else 0
         end = t + min(d, c['timeout'])
         if ca is not None and ca < end:
-            return [(calls, ('cancelled',), ca)]
+            # cancelled in the body; an overrunning attempt unwinds for u, unless its own deadline interrupts the unwinding
+            return [(calls, ('cancelled',), min(ca + u, t + c['timeout']) if u else ca)]
+        end += u
+        if ca is not None and ca < end:
+            return [(calls, ('cancelled',), ca)]  # cancelled while unwinding from the cut-off: the unwinding is interrupted
         t = end
         if kind == 'ok':
             return [(calls, ('ret', k), t)]
@@ -157,10 +167,16 @@ def run_impl(c):
             script = callers[tag]['script']
             k = len(r['starts'])
             r['starts'].append(loop.time())
-            kind, d, imm = script[k] if k < len(script) else ('ok', 0, True)
+            kind, d, imm = script[k][:3] if k < len(script) else ('ok', 0, True)
+            u = script[k][3] if k < len(script) and len(script[k]) > 3 and kind == 'over' else 0
             try:
                 if not imm:
-                    await asyncio.sleep(d)
+                    try:
+                        await asyncio.sleep(d)
+                    except asyncio.CancelledError:
+                        if u:
+                            await asyncio.sleep(u)  # cleanup that needs time (may itself be interrupted by a further cancellation)
+                        raise
                 if kind == 'ok':
                     return ('val', k, tag, kw)
                 if kind == 'over':
@@ -220,8 +236,9 @@ def _judge_caller(c, tag, info, r):
                 viol.append(('C19.b', f'{who}wait before attempt {k + 2} was {gap}, promised {want}'))
                 break
     for k in range(min(n, len(ends))):
-        if ends[k] - starts[k] > c['timeout'] + 1e-9:
-            viol.append(('C19.f', f'{who}attempt {k + 1} ran {ends[k] - starts[k]} > timeout {c["timeout"]}'))
+        uk = info['script'][k][3] if k < len(info['script']) and len(info['script'][k]) > 3 and info['script'][k][0] == 'over' else 0
+        if ends[k] - starts[k] > c['timeout'] + uk + 1e-9:
+            viol.append(('C19.f', f'{who}attempt {k + 1} ran {ends[k] - starts[k]} > timeout {c["timeout"]} (+ {uk} unwinding)'))
             break
     # --- reference model
     accepted = model(c, info['script'], info['start'], info['cancel_at'])
@@ -279,6 +296,11 @@ def run_case(c):
         classes.append('cutoff')
     if out[0] == 'cancelled':
         classes.append('cancelled')
+        ca = c['cancel_at']
+        for k, t0 in enumerate(starts):
+            sk = c['script'][k] if k < len(c['script']) else None
+            if sk and sk[0] == 'over' and len(sk) > 3 and sk[3] and t0 + c['timeout'] <= ca < t0 + c['timeout'] + sk[3]:
+                classes.append('cancelled-while-unwinding-from-the-cut-off')
     if out[0] == 'exc':
         classes.append('exhausted' if n == c['retries'] + 1 else 'unlisted-propagated')
     if out[0] == 'ret':
